@@ -16,6 +16,10 @@ func ConcUniverse() *Universe {
 		{Name: "a0", Sender: 0, Off: 0, Data: "a"},
 		{Name: "a1", Sender: 0, Off: 1, Data: "a"},
 		{Name: "b0", Sender: 0, Off: 0, Data: "b"}, // competitor of a0 for the same nonce
+		// a gateway transaction as GameExecutor.runWrite submits it: RequestId = message nonce,
+		// one sub-transaction carrying the gate nonce; its submission also touches the pool's
+		// shared write batch (refreshGateNonce), outside the pool lock
+		{Name: "g", Sender: 0, Off: 7, Rid: 3, Gate: 11, Data: "g"},
 	}
 	return NewUniverse("conc", 1, []uint64{n}, [][]uint64{{n}, {n + 1}}, specs)
 }
@@ -35,12 +39,19 @@ func Scenarios(thorough bool) []Scenario {
 		{Name: "unmark-vs-pack", Setup: []Op{add(0), add(1), mark(0)}, Threads: [][]Op{{unmark}, {pack}}},
 		{Name: "mark-evict-vs-add", Setup: []Op{add(0)}, Threads: [][]Op{{markEv([]int{0}, []int{2})}, {add(2)}}},
 		{Name: "add-pack-mark", Setup: []Op{add(0)}, Threads: [][]Op{{add(1)}, {pack}, {mark(0)}}},
+		// gateway submission (index 3) next to the block bookkeeping, packing and a reorg
+		{Name: "gate-add-vs-mark", Setup: []Op{add(0)}, Threads: [][]Op{{add(3)}, {mark(0)}}},
+		{Name: "gate-add-vs-mark-two-evict", Setup: []Op{add(0), add(1), add(2)}, Threads: [][]Op{{add(3)}, {markEv([]int{0, 1}, []int{2})}}},
+		{Name: "gate-add-vs-pack", Setup: []Op{add(0)}, Threads: [][]Op{{add(3)}, {pack}}},
+		{Name: "gate-add-vs-unmark", Setup: []Op{add(0), mark(0)}, Threads: [][]Op{{add(3)}, {unmark}}},
 	}
 	if thorough {
 		s = append(s,
 			Scenario{Name: "add-add-mark", Threads: [][]Op{{add(0)}, {add(1)}, {mark(0, 1)}}},
 			Scenario{Name: "mark-unmark-vs-add", Setup: []Op{add(0)}, Threads: [][]Op{{mark(0), unmark}, {add(0)}}},
 			Scenario{Name: "two-adds-vs-pack", Threads: [][]Op{{add(0), add(1)}, {pack, pack}}},
+			Scenario{Name: "gate-add-vs-mark-gate", Setup: []Op{add(0), add(3)}, Threads: [][]Op{{add(3)}, {mark(0, 3)}}},
+			Scenario{Name: "gate-add-vs-mark-vs-add", Setup: []Op{add(0)}, Threads: [][]Op{{add(3)}, {mark(0)}, {add(0)}}},
 		)
 	}
 	return s
